@@ -733,3 +733,24 @@ def apply_layout(biom, spec, recipe, r):
     elif recipe == 'after-nnz':
         t.nnz
     return t
+
+
+def boundary_sizes(r, lo, hi, k):
+    """k sizes between lo and hi that sit on or next to the boundaries a
+    blocked / batched implementation is likely to use (powers of two,
+    multiples of 10, 32, 50 and 100, each -1 / 0 / +1), drawn with `r`: the
+    scale probes use them next to their fixed sizes, so that different seeds
+    put different boundaries to the test."""
+    pool = set()
+    p2 = 2
+    while p2 <= hi * 2:
+        for m_ in (1, 3):
+            for d in (-1, 0, 1):
+                pool.add(p2 * m_ + d)
+        p2 *= 2
+    for step in (10, 32, 50, 100, 1000):
+        for q in range(step, hi + step, step):
+            for d in (-1, 0, 1):
+                pool.add(q + d)
+    pool = sorted(x for x in pool if lo <= x <= hi)
+    return r.sample(pool, min(k, len(pool)))
